@@ -574,6 +574,130 @@ def task_rng(ctx):
     ctx.assume_note("A4: get_rng_state/set_rng_state round-trip the generator state")
 
 
+def replay_resume_thermostat(model):
+    """real code: a thermostatted XL_BOMD run (damp = 20 fs) checkpointed and resumed through run_from_checkpoint with the engine
+    class replaced by a recorder subclass: the rebuilt engine must carry the checkpoint's damping time."""
+    import io, contextlib, os, tempfile, shutil
+    import torch
+    from seqm.seqm_functions.constants import Constants
+    from seqm.Molecule import Molecule
+    import seqm.MolecularDynamics as M
+
+    torch.set_default_dtype(torch.float64)
+    d = tempfile.mkdtemp(prefix="pyvc_c10_")
+    seen = {}
+    try:
+        params = {"method": "AM1", "scf_eps": 1e-7, "scf_converger": [1], "sp2": [False, 1e-5], "elements": [0, 1], "learned": [], "pair_outer_cutoff": 1e10, "eig": True}
+        mol = Molecule(Constants(), params, torch.tensor([[[0.0, 0, 0], [0.80, 0, 0]]]), torch.tensor([[1, 1]]))
+        md = M.XL_BOMD(xl_bomd_params={"k": 3}, damp=20.0, seqm_parameters=params, timestep=0.5, Temp=300.0,
+                       output={"molid": [0], "prefix": os.path.join(d, "md"), "print every": 0, "checkpoint every": 2, "xyz": 0, "h5": {"data": 1}})
+        with contextlib.redirect_stdout(io.StringIO()):
+            md.run(mol, 4, seed=3)
+        real_run = M.XL_BOMD.run
+
+        def rec_run(self, *a, **k):
+            seen["damp"] = self.damp
+            seen["has_coefficients_after_initialize"] = None
+            return None
+
+        M.XL_BOMD.run = rec_run
+        try:
+            with contextlib.redirect_stdout(io.StringIO()):
+                M.Molecular_Dynamics_Basic.run_from_checkpoint(os.path.join(d, "md.restart.pt"))
+        finally:
+            M.XL_BOMD.run = real_run
+        return {"reproduced": seen.get("damp") != 20.0, "damp_of_the_checkpointed_run": 20.0, "damp_of_the_rebuilt_engine": seen.get("damp")}
+    finally:
+        shutil.rmtree(d, ignore_errors=True)
+
+
+def task_resume_engine_configuration(ctx):
+    """run_from_checkpoint rebuilds the engine the checkpoint names with the configuration the checkpoint stores: time step,
+    temperature, output settings, electronic-structure settings for every engine; the damping time for the three engines that can
+    be thermostatted (Langevin, XL_BOMD, KSA_XL_BOMD); the XL-BOMD parameters for the two XL engines; and run() is called with the
+    stored number of steps and centre-of-mass setting.  Real function, engine classes replaced by recorders, symbolic values."""
+    import seqm.MolecularDynamics as M
+
+    ctx.under_contract(MD + ":Molecular_Dynamics_Basic.run_from_checkpoint", stubs=["_load_checkpoint_base", "_restore_rng", "engine classes (recorders)"])
+    ctx.under_contract(MD + ":Molecular_Dynamics_Basic._checkpoint_init_kwargs")
+    fn_resume = M.Molecular_Dynamics_Basic.run_from_checkpoint
+    rep = []
+
+    def rp(m_):
+        if not rep:
+            try:
+                rep.append(replay_resume_thermostat({}))
+            except Exception as exc:  # noqa
+                rep.append({"reproduced": False, "error": repr(exc)[:300]})
+        return rep[0]
+
+    engines = ("Molecular_Dynamics_Basic", "Molecular_Dynamics_Langevin", "XL_BOMD", "KSA_XL_BOMD")
+    real_kwargs = M.Molecular_Dynamics_Basic._checkpoint_init_kwargs
+    for eng in engines:
+        made = {}
+        ckpt_box = [None]
+
+        def fake(name):
+            class Fake:
+                def __init__(self, **kw):
+                    made["class"] = name
+                    made["kwargs"] = kw
+                    made["obj"] = self
+
+                def to(self, device):
+                    return self
+
+                def run(self, **kw):
+                    made["run"] = kw
+
+            # run_from_checkpoint reaches its helpers through the class name Molecular_Dynamics_Basic, which is a recorder here too
+            Fake._load_checkpoint_base = staticmethod(lambda path, device=None: made["load"](path, device))
+            Fake._restore_rng = staticmethod(lambda c: None)
+            Fake._checkpoint_init_kwargs = staticmethod(real_kwargs)
+            return Fake
+
+        damp, dt, Temp, steps = real("damp"), real("dt"), real("Temp"), integer("steps")
+        xlp = {"k": 3, "max_rank": 2}
+        outp, sp = {"prefix": "x"}, {"method": "AM1"}
+
+        def thunk():
+            made.clear()
+            made["load"] = lambda path, device=None: (ckpt_box[0], ghost_molecule(0), st._CPU, True)
+            Pt = st.symbolic((4, 1, 1, 1), "Pt")
+            ckpt = {"MD_type": eng, "xl_bomd_params": xlp, "xl_ctx": {"Pt": Pt, "es_amp_t": None}, "step_done": 2, "steps": steps, "damp": damp,
+                    "seqm_parameters": sp, "timestep": dt, "Temp": Temp, "output": outp, "remove_com": ("linear", 5), "rng": {}}
+            ckpt_box[0] = ckpt
+            fn_resume("ckpt.pt")
+            return dict(made)
+
+        ex = ctx.explore(thunk, stubs={MD + ":" + e: fake(e) for e in engines}, name="run_from_checkpoint " + eng, max_paths=8)
+        ok = [p for p in ex.paths if p.raised is None]
+        if len(ok) != 1:
+            for p in ex.paths:
+                if p.raised is not None and isinstance(p.raised, Unmodelled):
+                    raise p.raised
+            ctx.fail("resume_engine.%s.returns" % eng, "%r" % ([p.raised for p in ex.paths],))
+            continue
+        mk = ok[0].value
+        kw = mk.get("kwargs", {})
+        tag = "resume_engine.%s" % eng
+        ctx.prove(tag + ".engine-class-is-the-one-the-checkpoint-names", E.const(mk.get("class") == eng))
+        ctx.prove_eq(tag + ".timestep", S(kw.get("timestep", 0)), dt)
+        ctx.prove_eq(tag + ".Temp", S(kw.get("Temp", 0)), Temp)
+        ctx.prove(tag + ".output-and-electronic-structure-settings", E.const(kw.get("output") is outp and kw.get("seqm_parameters") is sp))
+        if eng != "Molecular_Dynamics_Basic":
+            got = kw.get("damp", None)
+            if got is None:
+                ctx.fail(tag + ".damping-time-is-the-checkpoint's", "the rebuilt engine gets no damping time (the checkpoint stores %s)" % E.to_str(damp.n), replay=rp(None), witness_class="thermostat-lost-on-resume")
+            else:
+                ctx.prove_eq(tag + ".damping-time-is-the-checkpoint's", S(got), damp, replay=rp, classify=lambda m_, r: "thermostat-lost-on-resume")
+        if eng in ("XL_BOMD", "KSA_XL_BOMD"):
+            ctx.prove(tag + ".xl_bomd_params-are-the-checkpoint's", E.const(kw.get("xl_bomd_params") is xlp))
+        runkw = mk.get("run", {})
+        ctx.prove_eq(tag + ".run.steps", S(runkw.get("steps", 0)), steps)
+        ctx.prove(tag + ".run.remove_com", E.const(runkw.get("remove_com") == ("linear", 5)))
+
+
 def task_xl_resume(ctx):
     """XL-BOMD / KSA engines: the auxiliary density a resumed run continues from is P(step_done) (every k, every phase)."""
     from contracts import C09_xlbomd as C09
@@ -583,5 +707,5 @@ def task_xl_resume(ctx):
     ctx.assume_note("history-buffer invariant Pt[j] = P(step_done - ((step_done mod m + j) mod m)) is established by XL_BOMD.one_step (C09 task history)")
 
 
-TASKS_QUICK = ["xl_resume", "open_resume", "resume_D_CVF", "resume_D_cvf", "resume_d_CvF", "resume_d_cVf", "fresh_ordering", "atomic_save", "frames", "xyz", "rng"]
+TASKS_QUICK = ["xl_resume", "resume_engine_configuration", "open_resume", "resume_D_CVF", "resume_D_cvf", "resume_d_CvF", "resume_d_cVf", "fresh_ordering", "atomic_save", "frames", "xyz", "rng"]
 TASKS_THOROUGH = TASKS_QUICK
